@@ -1,5 +1,6 @@
 import Anysystem.Props.C07
 import Anysystem.Proofs.SimStepThms
+import Anysystem.Proofs.SimWholeRun
 #print axioms Anysystem.step_timerContract
 #print axioms Anysystem.refRun_timerContract
 #print axioms Anysystem.sendLocal_timerContract
@@ -12,3 +13,11 @@ import Anysystem.Proofs.SimStepThms
 #print axioms Anysystem.Sim.handleActions_override_timer
 #print axioms Anysystem.Sim.handleActions_once_ignored
 #print axioms Anysystem.Sim.handleActions_cancel_timer
+#print axioms Anysystem.Sim.TimerInv.init
+#print axioms Anysystem.Sim.TimerInv.step
+#print axioms Anysystem.Sim.TimerInv.steps
+#print axioms Anysystem.Sim.TimerInv.sendLocal
+#print axioms Anysystem.Sim.TimerInv.crashNode
+#print axioms Anysystem.Sim.TimerInv.recoverNode
+#print axioms Anysystem.Sim.TimerInv.addProcess
+#print axioms Anysystem.Sim.sim_timer_contract
